@@ -1,212 +1,366 @@
 import Hive.Model.EventsNotifierRace
 /-!
-# Invariant of the `Wait` protocol model (repaired code)
+# Invariant of the `Wait` / `Deregister` protocol model (repaired code)
+
+The reference count of the entry is exact in every reachable configuration: while the entry exists,
+`count` = number of listeners whose `deregistered` flag is still unset + number of `Deregister`
+callers that have won the atomic swap and not yet executed `removeListener`.  Hence the deregistration
+that brings the count to 0 finds every flag — in particular `L`'s — set.
 -/
 namespace Hive.NotifierRace
 open Hive.Conc
 
-/-- Shared-state part of the invariant. -/
-structure ShInv (s : Sh) : Prop where
+/-- Listeners of the entry whose `deregistered` flag is unset. -/
+def unflagged (s : Sh) : Nat := (if s.flag then 0 else 1) + s.oflags.countP (fun b => !b)
+
+/-- A `Deregister` caller between its winning swap and the end of its `removeListener`. -/
+def mid : Th → Bool
+  | .dr _ _ .close => true
+  | .dr _ _ .remove => true
+  | _ => false
+
+/-- Shared-state part of the invariant; `n` = number of threads that are `mid`. -/
+structure ShInv (s : Sh) (n : Nat) : Prop where
   closed_flag : s.nchan = true → s.inWindow = false → s.flag = true
-  gone_flag : s.lcounted = false → s.flag = true
+  count_exact : s.entry = true → s.count = unflagged s + n
 
 /-- Per-thread part of the invariant. -/
 def ThInv (s : Sh) : Th → Prop
   | .w2 => s.nchan = true
-  | .dr (some .ok) pc => s.inWindow = true ∧ (pc = .close ∨ pc = .remove → s.flag = true)
-  | .dr _ pc => pc = .close ∨ pc = .remove → s.flag = true
+  | .dr who r pc =>
+    (r = some .ok → s.inWindow = true) ∧ (pc = .close ∨ pc = .remove → getFlag s who = true) ∧
+    (pc = .swap ∨ pc = .close ∨ pc = .remove ∨ pc = .fin)
   | _ => True
 
 /-- Flags only ever go up. -/
 def Le (s s' : Sh) : Prop :=
-  (s.flag = true → s'.flag = true) ∧ (s.nchan = true → s'.nchan = true) ∧ (s.inWindow = true → s'.inWindow = true)
+  (∀ who, getFlag s who = true → getFlag s' who = true) ∧ (s.nchan = true → s'.nchan = true) ∧
+  (s.inWindow = true → s'.inWindow = true)
+
+theorem Le.rfl' (s : Sh) : Le s s := ⟨fun _ h => h, id, id⟩
 
 theorem ThInv.mono {s s' : Sh} (hle : Le s s') {t : Th} (h : ThInv s t) : ThInv s' t := by
   obtain ⟨h1, h2, h3⟩ := hle
   cases t with
   | w2 => exact h2 h
-  | dr r pc =>
-    cases r with
-    | none => exact fun x => h1 (h x)
-    | some r =>
-      cases r with
-      | ok => exact ⟨h3 h.1, fun x => h1 (h.2 x)⟩
-      | dereg => exact fun x => h1 (h x)
-      | ctx => exact fun x => h1 (h x)
+  | dr who r pc => exact ⟨fun x => h3 (h.1 x), fun x => h1 who (h.2.1 x), h.2.2⟩
   | _ => trivial
 
-theorem ThInv.past_swap {s : Sh} {r : Option Res} {pc : DPc} (h : ThInv s (.dr r pc))
-    (hpc : pc = .close ∨ pc = .remove) : s.flag = true := by
-  cases r with
-  | none => exact h hpc
-  | some r => cases r with
-    | ok => exact h.2 hpc
-    | dereg => exact h hpc
-    | ctx => exact h hpc
+/-! ### list facts about the flags of the other listeners -/
 
-theorem le_removeL (s : Sh) : Le s (removeL s) := by
-  unfold removeL Le
-  by_cases h1 : (s.entry && s.lcounted) = true <;> by_cases h2 : (s.others == 0) = true <;> simp [h1, h2]
+theorem getD_set_true (l : List Bool) (i j : Nat) (h : l.getD i true = true) :
+    (l.set j true).getD i true = true := by
+  induction l generalizing i j with
+  | nil => simp
+  | cons a l ih =>
+    cases j with
+    | zero => cases i with
+      | zero => simp
+      | succ i => simpa using h
+    | succ j => cases i with
+      | zero => simpa using h
+      | succ i =>
+        simp only [List.set_cons_succ, List.getD_cons_succ] at h ⊢
+        exact ih i j h
 
-theorem le_removeO (s : Sh) : Le s (removeO s) := by
-  unfold removeO Le
-  by_cases h1 : (s.entry && decide (0 < s.others)) = true <;>
-    by_cases h2 : (s.others == 1 && !s.lcounted) = true <;> simp [h1, h2]
+theorem getD_set_self (l : List Bool) (j : Nat) (h : l.getD j true = false) :
+    (l.set j true).getD j true = true := by
+  induction l generalizing j with
+  | nil => simp
+  | cons a l ih =>
+    cases j with
+    | zero => simp
+    | succ j =>
+      simp only [List.set_cons_succ, List.getD_cons_succ] at h ⊢
+      exact ih j h
+
+theorem countP_set_true (l : List Bool) (j : Nat) (h : l.getD j true = false) :
+    (l.set j true).countP (fun b => !b) + 1 = l.countP (fun b => !b) := by
+  induction l generalizing j with
+  | nil => simp at h
+  | cons a l ih =>
+    cases j with
+    | zero =>
+      have : a = false := by simpa using h
+      subst this
+      simp
+    | succ j =>
+      simp only [List.getD_cons_succ] at h
+      have := ih j h
+      simp only [List.set_cons_succ, List.countP_cons]
+      omega
+
+theorem le_setFlag (s : Sh) (who : Option Nat) : Le s (setFlag s who) := by
+  refine ⟨?_, ?_, ?_⟩
+  · intro w hw
+    cases who with
+    | none => cases w with
+      | none => rfl
+      | some i => exact hw
+    | some j => cases w with
+      | none => exact hw
+      | some i => exact getD_set_true _ i j hw
+  · cases who <;> exact id
+  · cases who <;> exact id
+
+theorem getFlag_setFlag (s : Sh) (who : Option Nat) (h : getFlag s who = false) :
+    getFlag (setFlag s who) who = true := by
+  cases who with
+  | none => rfl
+  | some j => exact getD_set_self _ j h
+
+theorem unflagged_setFlag (s : Sh) (who : Option Nat) (h : getFlag s who = false) :
+    unflagged (setFlag s who) + 1 = unflagged s := by
+  cases who with
+  | none =>
+    have : s.flag = false := h
+    simp [unflagged, setFlag, this]; omega
+  | some j =>
+    have := countP_set_true s.oflags j h
+    cases hf : s.flag <;> simp [unflagged, setFlag, hf] <;> omega
+
+theorem setFlag_fields (s : Sh) (who : Option Nat) :
+    (setFlag s who).nchan = s.nchan ∧ (setFlag s who).inWindow = s.inWindow ∧ (setFlag s who).entry = s.entry ∧
+    (setFlag s who).count = s.count ∧ (s.flag = true → (setFlag s who).flag = true) := by
+  cases who <;> simp [setFlag]
+
+theorem closeD_fields (s : Sh) (who : Option Nat) :
+    (closeD s who).nchan = s.nchan ∧ (closeD s who).inWindow = s.inWindow ∧ (closeD s who).entry = s.entry ∧
+    (closeD s who).count = s.count ∧ (closeD s who).flag = s.flag ∧ (closeD s who).oflags = s.oflags := by
+  cases who <;> simp [closeD]
+
+theorem le_closeD (s : Sh) (who : Option Nat) : Le s (closeD s who) := by
+  obtain ⟨h1, h2, _, _, h5, h6⟩ := closeD_fields s who
+  refine ⟨?_, by rw [h1]; exact id, by rw [h2]; exact id⟩
+  intro w hw
+  cases w with
+  | none => simpa [getFlag, h5] using hw
+  | some i => simpa [getFlag, h6] using hw
+
+theorem unflagged_congr {s s' : Sh} (h1 : s'.flag = s.flag) (h2 : s'.oflags = s.oflags) : unflagged s' = unflagged s := by
+  simp [unflagged, h1, h2]
+
+theorem remove_fields (s : Sh) :
+    (remove s).flag = s.flag ∧ (remove s).oflags = s.oflags ∧ (remove s).inWindow = s.inWindow ∧
+    (s.nchan = true → (remove s).nchan = true) := by
+  unfold remove
+  by_cases h1 : s.entry = true <;> by_cases h2 : (s.count == 1) = true <;> simp [h1, h2]
+
+theorem le_remove (s : Sh) : Le s (remove s) := by
+  obtain ⟨h1, h2, h3, h4⟩ := remove_fields s
+  refine ⟨?_, h4, by rw [h3]; exact id⟩
+  intro w hw
+  cases w with
+  | none => simpa [getFlag, h1] using hw
+  | some i => simpa [getFlag, h2] using hw
 
 theorem le_notify (s : Sh) : Le s (notify s) := by
-  unfold notify Le
-  by_cases h1 : s.entry = true <;> simp [h1]
-  intro h; simp [h]
-
-theorem removeO_fields (s : Sh) :
-    (removeO s).flag = s.flag ∧ (removeO s).inWindow = s.inWindow ∧ (removeO s).lcounted = s.lcounted ∧
-    ((removeO s).nchan = true → s.nchan = true ∨ s.lcounted = false) := by
-  unfold removeO
-  by_cases h1 : (s.entry && decide (0 < s.others)) = true <;>
-    by_cases h2 : (s.others == 1 && !s.lcounted) = true <;> simp [h1, h2]
-  · simp only [Bool.and_eq_true, Bool.not_eq_true'] at h2
-    exact Or.inr h2.2
-  all_goals exact fun h => Or.inl h
-
-theorem notify_fields (s : Sh) :
-    (notify s).flag = s.flag ∧ (notify s).lcounted = s.lcounted ∧
-    ((notify s).nchan = true → (notify s).inWindow = false →
-      s.flag = true ∨ (s.nchan = true ∧ s.inWindow = false)) := by
   unfold notify
-  by_cases h1 : s.entry = true <;> simp [h1]
-  · intro h2 h3; left; exact h3
-  · intro h2 h3; right; exact ⟨h2, h3⟩
+  by_cases h1 : s.entry = true
+  · simp only [h1, if_true]
+    refine ⟨fun w hw => ?_, fun _ => rfl, ?_⟩
+    · cases w <;> exact hw
+    · intro h; simp [h]
+  · simp only [h1]
+    exact Le.rfl' s
 
-/-- One step of one thread: the shared invariant is preserved, flags go up, and the moved thread
-satisfies its invariant in the new state. -/
-theorem step_ok {s s' : Sh} {t t' : Th} (hs : ShInv s) (ht : ThInv s t) (hm : (s', t') ∈ step true s t) :
-    ShInv s' ∧ Le s s' ∧ ThInv s' t' := by
+theorem unflagged_zero {s : Sh} (h : unflagged s = 0) : s.flag = true := by
+  unfold unflagged at h
+  cases hf : s.flag with
+  | true => rfl
+  | false => simp [hf] at h
+
+/-- The `removeListener` step of a caller that is counted in `n + 1`. -/
+theorem remove_ok {s : Sh} {n : Nat} (hs : ShInv s (n + 1)) : ShInv (remove s) n := by
+  obtain ⟨f1, f2, f3, _⟩ := remove_fields s
+  have hu : unflagged (remove s) = unflagged s := unflagged_congr f1 f2
+  by_cases h1 : s.entry = true
+  · have hc := hs.count_exact h1
+    by_cases h2 : (s.count == 1) = true
+    · have h2' : s.count = 1 := by simpa using h2
+      have hz : unflagged s = 0 := by omega
+      have hf := unflagged_zero hz
+      constructor
+      · intro _ _; rw [f1]; exact hf
+      · intro he; simp [remove, h1, h2] at he
+    · have h2' : s.count ≠ 1 := by simpa using h2
+      constructor
+      · intro hn hw
+        rw [f1]; rw [f3] at hw
+        have : s.nchan = true := by simpa [remove, h1, h2] using hn
+        exact hs.closed_flag this hw
+      · intro _
+        rw [hu]
+        have : (remove s).count = s.count - 1 := by simp [remove, h1, h2]
+        omega
+  · have : remove s = s := by simp [remove, h1]
+    rw [this]
+    exact ⟨hs.closed_flag, fun he => absurd he h1⟩
+
+theorem notify_ok {s : Sh} {n : Nat} (hs : ShInv s n) : ShInv (notify s) n := by
+  unfold notify
+  by_cases h1 : s.entry = true
+  · simp only [h1, if_true]
+    constructor
+    · intro _ hw
+      cases hf : s.flag with
+      | true => rfl
+      | false => simp [hf] at hw
+    · intro he; simp at he
+  · simp only [h1]
+    exact hs
+
+/-- One step of one thread: the shared invariant is preserved (with the moved thread's contribution
+to the number of mid-deregistration callers updated), flags go up, and the moved thread satisfies its
+invariant in the new state. -/
+theorem step_ok {s s' : Sh} {t t' : Th} {m : Nat} (hs : ShInv s (m + (if mid t then 1 else 0))) (ht : ThInv s t)
+    (hm : (s', t') ∈ step true s t) :
+    ShInv s' (m + (if mid t' then 1 else 0)) ∧ Le s s' ∧ ThInv s' t' := by
   cases t with
   | w0 =>
     simp only [step] at hm
     split at hm <;> simp at hm <;> obtain ⟨rfl, rfl⟩ := hm
-    · exact ⟨hs, ⟨id, id, id⟩, by simp [ThInv]⟩
-    · exact ⟨hs, ⟨id, id, id⟩, trivial⟩
+    · exact ⟨by simpa [mid] using hs, Le.rfl' _, by simp [ThInv]⟩
+    · exact ⟨by simpa [mid] using hs, Le.rfl' _, trivial⟩
   | w1 =>
     simp only [step, List.mem_append, if_true] at hm
     rcases hm with (hm | hm) | hm
     · split at hm <;> simp at hm
       obtain ⟨rfl, rfl⟩ := hm
       rename_i hn
-      exact ⟨hs, ⟨id, id, id⟩, hn⟩
+      exact ⟨by simpa [mid] using hs, Le.rfl' _, hn⟩
     · split at hm <;> simp at hm
       obtain ⟨rfl, rfl⟩ := hm
-      exact ⟨hs, ⟨id, id, id⟩, by simp [ThInv]⟩
+      exact ⟨by simpa [mid] using hs, Le.rfl' _, by simp [ThInv]⟩
     · split at hm <;> simp at hm
       obtain ⟨rfl, rfl⟩ := hm
-      exact ⟨hs, ⟨id, id, id⟩, by simp [ThInv]⟩
+      exact ⟨by simpa [mid] using hs, Le.rfl' _, by simp [ThInv]⟩
   | w2 =>
     simp only [step] at hm
     split at hm <;> simp at hm <;> obtain ⟨rfl, rfl⟩ := hm
-    · exact ⟨hs, ⟨id, id, id⟩, by simp [ThInv]⟩
+    · exact ⟨by simpa [mid] using hs, Le.rfl' _, by simp [ThInv]⟩
     · rename_i hf
       have hin : s'.inWindow = true := by
         cases hw : s'.inWindow with
         | true => rfl
         | false => exact absurd (hs.closed_flag ht hw) hf
-      exact ⟨hs, ⟨id, id, id⟩, ⟨hin, by simp⟩⟩
-  | dr r pc =>
+      exact ⟨by simpa [mid] using hs, Le.rfl' _, ⟨fun _ => hin, by simp, by simp⟩⟩
+  | dr who r pc =>
     simp only [step, List.mem_map] at hm
     obtain ⟨⟨s1, pc1⟩, hd, heq⟩ := hm
     simp only [Prod.mk.injEq] at heq
     obtain ⟨rfl, rfl⟩ := heq
-    have hres : ∀ s2 pc2, Le s s2 → (pc2 = .close ∨ pc2 = .remove → s2.flag = true) → ThInv s2 (.dr r pc2) := by
-      intro s2 pc2 hle hp
-      cases r with
-      | none => exact hp
-      | some r => cases r with
-        | ok => exact ⟨hle.2.2 ht.1, hp⟩
-        | dereg => exact hp
-        | ctx => exact hp
+    obtain ⟨hr, hp, hpc⟩ := ht
     cases pc with
     | swap =>
       simp only [dstep] at hd
       split at hd <;> simp at hd <;> obtain ⟨rfl, rfl⟩ := hd
-      · exact ⟨hs, ⟨id, id, id⟩, hres _ _ ⟨id, id, id⟩ (by simp)⟩
-      · refine ⟨⟨fun _ _ => rfl, fun _ => rfl⟩, ⟨fun _ => rfl, id, id⟩, hres _ _ ⟨fun _ => rfl, id, id⟩ (fun _ => rfl)⟩
+      · exact ⟨by simpa [mid] using hs, Le.rfl' _, ⟨hr, by simp, by simp⟩⟩
+      · rename_i hg
+        have hg' : getFlag s who = false := by simpa using hg
+        obtain ⟨g1, g2, g3, g4, g5⟩ := setFlag_fields s who
+        have hle := le_setFlag s who
+        have hs0 : ShInv s m := by simpa [mid] using hs
+        refine ⟨?_, hle, ⟨fun x => hle.2.2 (hr x), fun _ => getFlag_setFlag s who hg', by simp⟩⟩
+        simp only [mid, if_true]
+        constructor
+        · intro hn hw
+          rw [g1] at hn; rw [g2] at hw
+          exact g5 (hs0.closed_flag hn hw)
+        · intro he
+          rw [g3] at he
+          have := hs0.count_exact he
+          have hu := unflagged_setFlag s who hg'
+          rw [g4]; omega
     | close =>
       simp only [dstep, List.mem_singleton, Prod.mk.injEq] at hd
       obtain ⟨rfl, rfl⟩ := hd
-      have hf := ht.past_swap (Or.inl rfl)
-      exact ⟨⟨fun _ _ => hf, fun _ => hf⟩, ⟨id, id, id⟩, hres _ _ ⟨id, id, id⟩ (fun _ => hf)⟩
+      obtain ⟨g1, g2, g3, g4, g5, g6⟩ := closeD_fields s who
+      have hle := le_closeD s who
+      refine ⟨?_, hle, ⟨fun x => hle.2.2 (hr x), fun _ => hle.1 who (hp (Or.inl rfl)), by simp⟩⟩
+      have hs1 : ShInv s (m + 1) := by simpa [mid] using hs
+      simp only [mid, if_true]
+      constructor
+      · intro hn hw
+        rw [g1] at hn; rw [g2] at hw; rw [g5]
+        exact hs1.closed_flag hn hw
+      · intro he
+        rw [g3] at he
+        rw [g4, unflagged_congr g5 g6]
+        exact hs1.count_exact he
     | remove =>
       simp only [dstep, List.mem_singleton, Prod.mk.injEq] at hd
       obtain ⟨rfl, rfl⟩ := hd
-      have hf := ht.past_swap (Or.inr rfl)
-      have hle := le_removeL s
-      have hf' := hle.1 hf
-      exact ⟨⟨fun _ _ => hf', fun _ => hf'⟩, hle, hres _ _ hle (by simp)⟩
+      have hs1 : ShInv s (m + 1) := by simpa [mid] using hs
+      have hle := le_remove s
+      exact ⟨by simpa [mid] using remove_ok hs1, hle, ⟨fun x => hle.2.2 (hr x), by simp, by simp⟩⟩
     | fin => simp [dstep] at hd
-  | od b =>
-    cases b with
-    | true => simp [step] at hm
-    | false =>
-      simp only [step, List.mem_singleton, Prod.mk.injEq] at hm
-      obtain ⟨rfl, rfl⟩ := hm
-      refine ⟨?_, le_removeO s, trivial⟩
-      obtain ⟨f1, f2, f3, f4⟩ := removeO_fields s
-      constructor
-      · intro hn hw
-        rw [f1]; rw [f2] at hw
-        rcases f4 hn with h | h
-        · exact hs.closed_flag h hw
-        · exact hs.gone_flag h
-      · intro hl
-        rw [f1]; rw [f3] at hl
-        exact hs.gone_flag hl
+    | sload => simp at hpc
+    | sremove => simp at hpc
+    | sswap => simp at hpc
+    | sclose => simp at hpc
   | nt b =>
     cases b with
     | true => simp [step] at hm
     | false =>
       simp only [step, List.mem_singleton, Prod.mk.injEq] at hm
       obtain ⟨rfl, rfl⟩ := hm
-      refine ⟨?_, le_notify s, trivial⟩
-      obtain ⟨f1, f2, f3⟩ := notify_fields s
-      constructor
-      · intro hn hw
-        rw [f1]
-        rcases f3 hn hw with h | ⟨h, h'⟩
-        · exact h
-        · exact hs.closed_flag h h'
-      · intro hl
-        rw [f1]; rw [f2] at hl
-        exact hs.gone_flag hl
+      exact ⟨by simpa [mid] using notify_ok (by simpa [mid] using hs), le_notify s, trivial⟩
   | cx b =>
     cases b with
     | true => simp [step] at hm
     | false =>
       simp only [step, List.mem_singleton, Prod.mk.injEq] at hm
       obtain ⟨rfl, rfl⟩ := hm
-      exact ⟨⟨hs.closed_flag, hs.gone_flag⟩, ⟨id, id, id⟩, trivial⟩
+      have hs0 : ShInv s m := by simpa [mid] using hs
+      exact ⟨by simpa [mid] using (⟨hs0.closed_flag, hs0.count_exact⟩ : ShInv { s with ctxDone := true } m),
+        ⟨fun w hw => by cases w <;> exact hw, id, id⟩, trivial⟩
 
-def CfgInv (c : Cfg Sh Th) : Prop := ShInv c.1 ∧ ∀ t ∈ c.2, ThInv c.1 t
+def CfgInv (c : Cfg Sh Th) : Prop := ShInv c.1 (c.2.countP mid) ∧ ∀ t ∈ c.2, ThInv c.1 t
 
 theorem cfgInv_step {a b : Cfg Sh Th} (h : CfgInv a) (hs : Step (sys true) a b) : CfgInv b := by
   cases hs with
   | mk s pre t post s' t' hm =>
     obtain ⟨hsh, hth⟩ := h
     have ht := hth t (by simp)
-    obtain ⟨h1, h2, h3⟩ := step_ok hsh ht hm
-    refine ⟨h1, ?_⟩
-    intro x hx
-    simp only [List.mem_append, List.mem_cons] at hx
-    rcases hx with hx | rfl | hx
-    · exact (hth x (by simp [hx])).mono h2
-    · exact h3
-    · exact (hth x (by simp [hx])).mono h2
+    have e1 := countP_mid mid pre post t
+    have e2 := countP_mid mid pre post t'
+    have hsh' : ShInv s ((pre.countP mid + post.countP mid) + (if mid t then 1 else 0)) := by
+      have : (pre ++ t :: post).countP mid = (pre.countP mid + post.countP mid) + (if mid t then 1 else 0) := by omega
+      rw [← this]; exact hsh
+    obtain ⟨h1, h2, h3⟩ := step_ok hsh' ht hm
+    refine ⟨?_, ?_⟩
+    · have : (pre ++ t' :: post).countP mid = (pre.countP mid + post.countP mid) + (if mid t' then 1 else 0) := by omega
+      show ShInv s' ((pre ++ t' :: post).countP mid)
+      rw [this]; exact h1
+    · intro x hx
+      simp only [List.mem_append, List.mem_cons] at hx
+      rcases hx with hx | rfl | hx
+      · exact (hth x (by simp [hx])).mono h2
+      · exact h3
+      · exact (hth x (by simp [hx])).mono h2
+
+theorem initial_not_mid {t : Th} (h : t.initial = true) : mid t = false := by
+  cases t with
+  | dr who r pc => cases r <;> cases pc <;> simp_all [Th.initial, mid]
+  | _ => simp [mid]
 
 theorem cfgInv_init (others : Nat) (ts : List Th) (hts : ∀ t ∈ ts, t.initial = true) :
     CfgInv (init others, ts) := by
-  refine ⟨⟨by simp [init], by simp [init]⟩, ?_⟩
-  intro t ht
-  have := hts t ht
-  cases t with
-  | dr r pc => cases r <;> cases pc <;> simp_all [Th.initial, ThInv]
-  | _ => simp_all [Th.initial, ThInv]
+  have hc : ts.countP mid = 0 := by
+    rw [List.countP_eq_zero]
+    intro t ht
+    simp [initial_not_mid (hts t ht)]
+  refine ⟨⟨by simp [init], ?_⟩, ?_⟩
+  · intro _
+    show (init others).count = unflagged (init others) + ts.countP mid
+    rw [hc]
+    simp [init, unflagged, List.countP_replicate]
+    omega
+  · intro t ht
+    have := hts t ht
+    cases t with
+    | dr who r pc => cases r <;> cases pc <;> simp_all [Th.initial, ThInv]
+    | _ => simp_all [Th.initial, ThInv]
 
 end Hive.NotifierRace
